@@ -78,7 +78,8 @@ def run(tier, seed, rep=None, faults=()):
     total = 0
     plans = [("all-actions", 2, ()), ("core-actions", 3, CORE_OFF)]
     if tier == "thorough":
-        plans = [("all-actions", 3, ("rejects",)), ("core-actions", 4, CORE_OFF), ("all-with-rejects", 2, ())]
+        # (all actions to depth 3 are several million histories per graph shape: they did not fit into memory on this machine)
+        plans = [("all-actions", 2, ()), ("core-actions", 4, CORE_OFF)]
     for label, depth, off in plans:
         # thorough: one graph shape at a time (millions of histories: all of them at once do not fit into memory)
         groups = [[sh] for sh in SHAPES] if tier == "thorough" else [SHAPES]
